@@ -182,6 +182,11 @@ func (s *HeaderScanner) Next() bool {
 	s.Value = s.Value[:n]
 	if isMultiLineValue {
 		s.Value = normalizeHeaderValue(s.Value)
+		// a value that begins on a continuation line ("Content-Length:" CRLF SP "3"):
+		// what is left of the fold in front of it is whitespace around the value
+		for len(s.Value) > 0 && (s.Value[0] == ' ' || s.Value[0] == '\t') {
+			s.Value = s.Value[1:]
+		}
 	}
 	return true
 }
